@@ -203,7 +203,8 @@ impl<Ef: LabEffect> Direct<Ef> {
             let cmd = self.cmd.as_mut().expect("started");
             // a holder's loop `while !cmd.is_done() { take outputs }` relies on this: done means
             // nothing is left to take
-            let done_first = cmd.is_done();
+            // (asking first also runs the command, so only every other time)
+            let done_first = rng.chance(1, 2) && cmd.is_done();
             // sometimes take the first effect only (`effects().next()`), sometimes all of them
             let take_one = !flush && rng.chance(1, 3);
             let effects: Vec<Ef> = if take_one { cmd.effects().next().into_iter().collect() } else { cmd.effects().collect() };
